@@ -1,18 +1,25 @@
 """C14 -- HyperLogLog (DESIGN 3/C14).
 (M) MC_HLL: for m = 4 registers and abstract (index, rank) items, every multiset/order of offers to three counters,
     every merge/add-all/rebuild: the state is a function of the set offered, merge is commutative, associative,
-    idempotent, equals the counter of the union and leaves its inputs untouched, the byte form decodes back.
+    idempotent, equals the counter of the union and leaves its inputs untouched, the byte form decodes back; a byte
+    form kept by a caller (Snap) stays the state of the moment it was taken and rebuilds (BuildSnap) into that state.
 (A) Trace_HLL: real counters of every precision 4..16: each Offer's boolean, every GetBytes() (header, length,
     register words) and Cardinality() judged against the register semantics folded by TLC from the item hashes;
     the same over items crafted to have chosen hash bits (gen "edge": all-zero remainder, single bits, first/last
-    register); estimates (gens "core", "bulk", "switch") against the integer error bound.
+    register); every GetBytes() result is kept UNCOPIED and projected again (Held) after later offers / AddAll / GetBytes
+    of the same counter, counters are rebuilt from the kept slices of a counter reporting in stages (BuildHeld) and the
+    caller finally overwrites the slices it was given (Scribble); estimates (gens "core", "bulk", "switch") against the integer error bound.
 
 Finding fixed in the worktree: Cardinality() = 2^63 when no register is empty but the raw estimate is <= 2.5m
 (linear counting evaluated log(m/0)); rejected as EstBulk p=4 n=50 / p=5 n=73 on the unchanged tree."""
 
 
 def body(run):
-    run.mc("MC_HLL", workers=run.pick(4, 16), cfg="MC_HLL_thorough.cfg" if run.thorough() else "MC_HLL.cfg", coverage=not run.thorough())
+    run.mc("MC_HLL", workers=run.pick(4, 16), cfg="MC_HLL_thorough.cfg" if run.thorough() else "MC_HLL.cfg", coverage=not run.thorough(), heap="2g")
+    if run.thorough():
+        # byte forms kept while the counter goes on (Snap / BuildSnap) of every base counter; the quick config keeps
+        # them of counter 1 only, the deep config above (4 offers, 3 ranks) keeps none to stay within its time
+        run.mc("MC_HLL", workers=16, cfg="MC_HLL_snap.cfg", heap="2g")
     out, meta = run.drive("c14")
     run.absorb(meta)
     run.validate(out, meta)
